@@ -23,7 +23,7 @@ fn s(j: &java_string::JavaStr) -> String { j.as_str_lossy().into_owned() }
 /// access in decimal, `0x` hexadecimal or `0b` binary). Returns false when something differs.
 pub fn judge_table<N>(rep: &mut Report, rows: &[Row], nests: &Nests<N>, detail: &dyn Fn() -> Value) -> bool {
     let mut ok = true;
-    let mut bad = |rep: &mut Report, what: &str, extra: Value| { rep.violation(format!("C14 table text: {what}"), json!({"input": detail(), "where": extra})); };
+    let bad = |rep: &mut Report, what: &str, extra: Value| { rep.violation(format!("C14 table text: {what}"), json!({"input": detail(), "where": extra})); };
     if nests.all.len() != rows.len() { bad(rep, "number of nests differs from the number of rows", json!({"rows": rows.len(), "nests": nests.all.len()})); return false; }
     for (r, (key, n)) in rows.iter().zip(nests.all.iter()) {
         let kind = match n.nest_type { NestType::Anonymous => Kind::Anonymous, NestType::Inner => Kind::Inner, NestType::Local => Kind::Local };
@@ -61,8 +61,9 @@ pub fn ref_apply(m: &Maps, names: &BTreeMap<String, String>) -> Option<Maps> {
     Some(out)
 }
 
-/// target class names are not part of the judgement
-pub fn mask_targets(m: &mut Maps) { for c in m.classes.values_mut() { for n in c.names.iter_mut().skip(1) { *n = None; } } }
+/// target names of LISTED classes are not part of the judgement (the statement speaks of source names); the target
+/// name of a class the table does not list must stay as it is
+pub fn mask_targets(m: &mut Maps, listed: &std::collections::BTreeSet<String>) { for (k, c) in m.classes.iter_mut() { if listed.contains(k) { for n in c.names.iter_mut().skip(1) { *n = None; } } } }
 
 pub fn call_apply(q: M2, nests: &Nests<Src>) -> Result<Result<M2, String>, PanicInfo> { guard(|| dukenest::apply_nests_to_mappings(q, nests).map_err(|e| format!("{e:#}"))) }
 pub fn call_undo(q: M2, nests: &Nests<Src>) -> Result<Result<M2, String>, PanicInfo> { guard(|| dukenest::undo_nests_to_mappings(q, nests).map_err(|e| format!("{e:#}"))) }
@@ -81,9 +82,9 @@ fn template(msg: &str) -> String {
 pub fn err_template(e: &str) -> String { template(e.rsplit(": ").next().unwrap_or(e)) }
 
 /// Compares the source side of two sets. `what` names the operation inside the signature.
-pub fn judge_maps(rep: &mut Report, what: &str, expected: &Maps, observed: &Maps, detail: &dyn Fn() -> Value) -> bool {
+pub fn judge_maps(rep: &mut Report, what: &str, expected: &Maps, observed: &Maps, listed: &std::collections::BTreeSet<String>, detail: &dyn Fn() -> Value) -> bool {
     let (mut e, mut o) = (expected.clone(), observed.clone());
-    mask_targets(&mut e); mask_targets(&mut o);
+    mask_targets(&mut e, listed); mask_targets(&mut o, listed);
     let d = cmp::diff_maps(&e, &o);
     for (k, w) in cmp::kinds(&d) { rep.violation(format!("C14 mappings {what}: {k}"), json!({"where": w, "input": detail()})); }
     d.is_empty()
@@ -161,7 +162,7 @@ pub fn ref_translate(rows: &[Row], m: &Maps) -> Vec<ExpNest> {
 
 /// Judges a translated table. Returns the number of nests whose every component was judged.
 pub fn judge_translation(rep: &mut Report, exp: &[ExpNest], obs: &Nests<Dst>, detail: &dyn Fn() -> Value) -> usize {
-    let mut bad = |rep: &mut Report, what: String, extra: Value| { rep.violation(format!("C14 nest translation: {what}"), json!({"where": extra, "input": detail()})); };
+    let bad = |rep: &mut Report, what: String, extra: Value| { rep.violation(format!("C14 nest translation: {what}"), json!({"where": extra, "input": detail()})); };
     if obs.all.len() != exp.len() { bad(rep, "number of nests changes".into(), json!({"expected": exp.len(), "observed": obs.all.len()})); }
     let mut full = 0;
     for e in exp {
